@@ -400,106 +400,140 @@ def check_deserializer(ctx, lib):
         ctx.check(ok, rule, "deserialize_newtype_struct", "visit_newtype_struct(the value itself)", b.span)
     b = ctx.fn(D + "deserialize_enum", rule=rule)
     if b is not None:
-        o = Origins(b, lib)
-        br = Branches(b, o)
-        sb, ve, arms = arm_regions(b, br, VAR, P1)
-        ok = ve is not None and set(ve["edges"]) == {"Object", "String"}
-        if ok:
-            other = {x for x in reach_avoiding(b, ve["otherwise"]) if edge_dominates(b, (sb, ve["otherwise"]), x)}
-            ok = region_always_errs(b, other)
-            # Object: the visitor is reached only when a first entry exists and a second one does not (spelling-independent:
-            # nested matches, `if iter.next().is_some()`, or one match on the pair (iter.next(), iter.next()))
-            nx = [(x, b.blocks[x]["term"]) for x in sorted(arms["Object"]) if b.blocks[x]["term"]["k"] == "call" and b.blocks[x]["term"]["callee"] == "std::iter::Iterator::next"]
-            ok = ok and len(nx) == 2
-            ve_calls = [(x, t) for x, t in b.calls() if t["callee"].endswith("visit_enum")]
-            ok = ok and len(ve_calls) == 1
-            if ok:
-                e = o.of_operand(ve_calls[0][1]["args"][1])
-                ok = ms(e, lambda x: x[0] == "agg" and x[1] == "variable::EnumDeserializer::EnumDeserializer")
-                first, second = (nx[0][0], nx[1][0]) if b.dominates(nx[0][0], nx[1][0]) else (nx[1][0], nx[0][0])
+        # decided per kind of `self` (7 cases), whatever the dispatch is written as (one match, an early `if let String`
+        # return followed by a match, ..): which blocks run, what the visitor is handed, what is returned
+        from ..analysis import is_failure_term
+        from ..decision import Undecided
+        from ..leaf import KINDS, kind_walker
+        ok = True
+        detail = []
+        blocks_of = {}
+        walkers = {}
+        for K in KINDS:
+            w = kind_walker(b, lib, K)
+            w.cut_loops = True
+            w.max_steps = 4000
+            try:
+                paths = w.walk()
+            except Undecided as e:
+                ok = False
+                detail.append(f"{K}: undecided ({e})")
+                paths = []
+            walkers[K] = (w, paths)
+            blocks_of[K] = set().union(*[set(p) for p, _ in paths]) if paths else set()
+        common = set.intersection(*[v for v in blocks_of.values() if v]) if any(blocks_of.values()) else set()
+        ve_all = [(x, t) for x, t in b.calls() if t["callee"].endswith("visit_enum")]
+        for K in KINDS:
+            w, paths = walkers[K]
+            here = [(x, t) for x, t in ve_all if x in blocks_of[K]]
+            if K not in ("Object", "String"):
+                # any other kind is an error: no visitor call, every path returns a failure
+                good = not here and bool(paths)
+                for path, leaf in paths:
+                    r = w.result_on_path(path)
+                    good = good and bool(r) and all(is_failure_term(x) for x in r)
+                if not good:
+                    detail.append(f"{K}: not an error")
+                ok = ok and good
+                continue
+            if len(here) != 1:
+                ok = False
+                detail.append(f"{K}: {len(here)} visit_enum calls")
+                continue
+            vb, vt = here[0]
+            po = Origins(b, lib, only_blocks=blocks_of[K])
+            ED = "variable::EnumDeserializer"
+            f_var = field_by_type(lib, ED, "std::string::String", "variant")
+            f_val = field_by_type(lib, ED, "std::option::Option<", "val")
+            for e_ in po.of_operand(vt["args"][1]):
+                if not (e_[0] == "agg" and e_[1].startswith(ED) and len(e_[2]) == 2):
+                    ok = False
+                    detail.append(f"{K}: visitor argument is not an EnumDeserializer")
+                    continue
+                names_ = e_[3] if len(e_) > 3 and e_[3] else (f_var, f_val)
+                vals_ = dict(zip(names_, e_[2]))
+                variant_t = set(vals_.get(f_var, ()))
+                content = {strip_through(x) for x in vals_.get(f_val, ())}
+                if K == "String":
+                    good = bool(content) and all(x[0] == "agg" and x[1] == "std::option::Option::None" for x in content) and variant_t == {("field", P1, "String.0")}
+                else:
+                    entry = ("elem", ("field", P1, "Object.0"))
+                    good = bool(content) and all(x[0] == "agg" and x[1] == "std::option::Option::Some" and set(x[2][0]) == {("field", entry, "1")} for x in content) and \
+                        variant_t == {("field", entry, "0")}
+                if not good:
+                    detail.append(f"{K}: visitor is handed {fmt_terms(variant_t)[:40]} / {fmt_terms(content)[:60]}")
+                ok = ok and good
+            if K == "Object":
+                # the visitor is reached only with a first entry present and no second one: two next() calls on the map's
+                # iterator; every path to the visitor takes the Some edge of the first and the None edge of the second
+                br = Branches(b, Origins(b, lib))
+                nx = [x for x in sorted(blocks_of[K] - common) if b.blocks[x]["term"]["k"] == "call" and b.blocks[x]["term"]["callee"] == "std::iter::Iterator::next"]
+                if len(nx) != 2:
+                    ok = False
+                    detail.append(f"Object: {len(nx)} next() calls (expected the first and the second entry)")
+                else:
+                    first, second = (nx[0], nx[1]) if b.dominates(nx[0], nx[1]) else (nx[1], nx[0])
 
-                def root_call(pl, depth=0):
-                    """Block of the call whose result this place is (through moves and a tuple built and taken apart)."""
-                    if depth > 6:
+                    def root_call(pl, depth=0):
+                        """Block of the call whose result this place is (through moves and a tuple built and taken apart)."""
+                        if depth > 6:
+                            return None
+                        defs = b.assigns_to(pl["l"])
+                        if len(defs) != 1:
+                            return None
+                        blk_, i_, rv = defs[0]
+                        if i_ == "term":
+                            return blk_
+                        if rv["k"] == "use" and rv["op"].get("k") in ("copy", "move"):
+                            return root_call(rv["op"], depth + 1)
+                        if rv["k"] == "ref":
+                            return root_call(rv["place"], depth + 1)
+                        if rv["k"] == "agg" and rv.get("ak") == "tuple":
+                            fs_ = [e2 for e2 in pl["p"] if isinstance(e2, dict) and "f" in e2]
+                            if fs_ and fs_[0]["f"] < len(rv["ops"]) and rv["ops"][fs_[0]["f"]].get("k") in ("copy", "move"):
+                                return root_call(rv["ops"][fs_[0]["f"]], depth + 1)
                         return None
-                    l = pl["l"]
-                    defs = b.assigns_to(l)
-                    if len(defs) != 1:
-                        return None
-                    blk_, i_, rv = defs[0]
-                    if i_ == "term":
-                        return blk_
-                    if rv["k"] == "use" and rv["op"].get("k") in ("copy", "move"):
-                        return root_call(rv["op"], depth + 1)
-                    if rv["k"] == "ref":
-                        return root_call(rv["place"], depth + 1)
-                    if rv["k"] == "agg" and rv.get("ak") == "tuple":
-                        fs_ = [e_ for e_ in pl["p"] if isinstance(e_, dict) and "f" in e_]
-                        if fs_ and fs_[0]["f"] < len(rv["ops"]) and rv["ops"][fs_[0]["f"]].get("k") in ("copy", "move"):
-                            return root_call(rv["ops"][fs_[0]["f"]], depth + 1)
-                    return None
-
-                # the blocks through which the Object arm is left towards the visitor (the String arm joins there too)
-                reg = set(arms["Object"])
-                vis = ve_calls[0][0]
-                exits = sorted(x for x in reg if any(y not in reg and vis in reach_avoiding(b, y) for y in b.succs()[x]))
-                ok = ok and bool(exits)
-                for vb in exits:
-                  some_first = none_second = False
-                  for sb2, sw2 in br.switches():
-                      ve2 = br.variant_edges(sb2)
-                      if ve2 and ve2["adt"] == "std::option::Option":
-                          rc = root_call(ve2["place"])
-                          if rc == first and "Some" in ve2["edges"] and edge_dominates(b, (sb2, ve2["edges"]["Some"]), vb) and ve2["edges"]["Some"] != ve2["edges"].get("None", ve2["otherwise"]):
-                              some_first = True
-                          none_t = ve2["edges"].get("None", ve2["otherwise"])
-                          if rc == second and none_t != ve2["edges"].get("Some") and edge_dominates(b, (sb2, none_t), vb):
-                              none_second = True
-                      be2 = br.bool_edges(sb2)
-                      if be2:
-                          for t3 in (t for _, t in b.calls() if t["callee"] in ("std::option::Option::<T>::is_some", "std::option::Option::<T>::is_none")):
-                              if t3["t"] == sb2 or b.blocks[sb2]["term"]["discr"].get("l") == t3["dest"]["l"]:
-                                  rc = root_call(t3["args"][0])
-                                  want_edge = be2[1] if t3["callee"].endswith("is_some") else be2[0]
-                                  if rc == second and edge_dominates(b, (sb2, want_edge), vb):
-                                      none_second = True
-                  ok = ok and some_first and none_second
-                # and everything else in the Object arm that returns is an error
-                rets_ok = True
-                for x in arms["Object"]:
-                    tx = b.blocks[x]["term"]
-                    for st in b.blocks[x]["stmts"]:
-                        if st["k"] == "assign" and st["place"]["l"] == 0 and not st["place"]["p"] and st["rv"]["k"] == "agg" and st["rv"].get("variant") == "Ok":
-                            rets_ok = False
-                ok = ok and rets_ok
-                # what the visitor gets: on the Object arm always Some(the entry's value) — a null content is still a content —
-                # and the entry's key as the variant; on the String arm the string and no content
-                succ_all = {tb for tb in set(b.succs()[sb])}
-                for arm_name in ("Object", "String"):
-                    tgt = ve["edges"][arm_name]
-                    feas = reach_avoiding(b, 0, avoid_edges=[(sb, x) for x in succ_all if x != tgt])
-                    po = Origins(b, lib, only_blocks=feas)
-                    for e_ in po.of_operand(ve_calls[0][1]["args"][1]):
-                        if not (e_[0] == "agg" and len(e_[2]) == 2):
-                            ok = False
+                    first_edges, second_edges = set(), set()
+                    for sb2, sw2 in br.switches():
+                        ve2 = br.variant_edges(sb2)
+                        if ve2 and ve2["adt"] == "std::option::Option":
+                            rc = root_call(ve2["place"])
+                            none_t = ve2["edges"].get("None", ve2["otherwise"])
+                            if rc == first and "Some" in ve2["edges"] and ve2["edges"]["Some"] != none_t:
+                                first_edges.add((sb2, ve2["edges"]["Some"]))
+                            if rc == second and none_t != ve2["edges"].get("Some"):
+                                second_edges.add((sb2, none_t))
+                        be2 = br.bool_edges(sb2)
+                        if be2:
+                            for t3 in (t for _, t in b.calls() if t["callee"] in ("std::option::Option::<T>::is_some", "std::option::Option::<T>::is_none")):
+                                if t3["t"] == sb2 or b.blocks[sb2]["term"]["discr"].get("l") == t3["dest"]["l"]:
+                                    rc = root_call(t3["args"][0])
+                                    want_edge = be2[1] if t3["callee"].endswith("is_some") else be2[0]
+                                    if rc == second:
+                                        second_edges.add((sb2, want_edge))
+                    # every walked path of the Object case that reaches the visitor takes a first-is-Some and a second-is-None edge
+                    some_first = none_second = any(vb in p_ for p_, _ in paths)
+                    for p_, _ in paths:
+                        if vb not in p_:
                             continue
-                        ED = "variable::EnumDeserializer"
-                        f_var = field_by_type(lib, ED, "std::string::String", "variant")
-                        f_val = field_by_type(lib, ED, "std::option::Option<", "val")
-                        names_ = e_[3] if len(e_) > 3 and e_[3] else (f_var, f_val)
-                        vals_ = dict(zip(names_, e_[2]))
-                        vals_ = {"variant": vals_.get(f_var, ()), "val": vals_.get(f_val, ())}
-                        content = {strip_through(x) for x in vals_.get("val", ())}
-                        if arm_name == "Object":
-                            entry = ("elem", ("field", P1, "Object.0"))
-                            ok = ok and bool(content) and all(x[0] == "agg" and x[1] == "std::option::Option::Some" and
-                                                              set(x[2][0]) == {("field", entry, "1")} for x in content) and \
-                                set(vals_.get("variant", ())) == {("field", entry, "0")}
-                        else:
-                            ok = ok and bool(content) and all(x[0] == "agg" and x[1] == "std::option::Option::None" for x in content) and \
-                                set(vals_.get("variant", ())) == {("field", P1, "String.0")}
+                        upto = p_[: p_.index(vb) + 1]
+                        pairs = set(zip(upto, upto[1:]))
+                        some_first = some_first and bool(pairs & first_edges)
+                        none_second = none_second and bool(pairs & second_edges)
+                    if not (some_first and none_second):
+                        detail.append("Object: the visitor is not guarded by (first entry present, second absent)")
+                    ok = ok and some_first and none_second
+                # every other way out of the Object case is an error
+                for path, leaf in paths:
+                    if vb in path:
+                        continue
+                    r = w.result_on_path(path)
+                    if not (r and all(is_failure_term(x) for x in r)):
+                        ok = False
+                        detail.append("Object: a path that does not reach the visitor returns something other than an error")
         n += 1
-        ctx.check(ok, rule, "deserialize_enum", "a String is a unit-like variant, a single-entry Object is (variant, content); an empty or multi-entry map or any other kind is an error", b.span)
+        ctx.check(ok, rule, "deserialize_enum", "a String is a unit-like variant, a single-entry Object is (variant, content); an empty or multi-entry map or any other kind is an error"
+                  + (f" — {detail[:3]}" if detail else ""), b.span)
     # VariantAccess
     VA = "<variable::VariantDeserializer as serde::de::VariantAccess<'de>>::"
     for meth, text in (("unit_variant", "None -> Ok(()), Some(v) -> v must deserialise as unit"),
